@@ -123,9 +123,32 @@ theorem checkUnionMembers_congr (hT : SameDefMap T T') (ms : List (Name × Pos))
   unfold checkUnionMembers
   simp only [hT.ty]
 
+/-- the field loop of `directives_in_type` reads the document only through `definition_map.types` -/
+theorem ditFields_congr (hT : SameDefMap T T') {go go' : TypeDef → List Name → List Directive × List Name}
+    (h : ∀ t seen, go t seen = go' t seen) : ∀ (fs : List InputValueDef) (seen : List Name),
+    ditFields T go fs seen = ditFields T' go' fs seen
+  | [], _ => rfl
+  | f :: fs, seen => by
+    simp only [ditFields, ← hT.ty]
+    cases lastTypeDef? T f.ty.unwrapped with
+    | none => exact ditFields_congr hT h fs seen
+    | some ft => simp only [h, ditFields_congr hT h fs]
+
+/-- the walk through nested input objects (fix 2e4a65e) reads the document only through `definition_map.types` -/
+theorem ditWalk_congr (hT : SameDefMap T T') : ∀ (fuel : Nat) (t : TypeDef) (seen : List Name),
+    ditWalk T fuel t seen = ditWalk T' fuel t seen
+  | 0, _, _ => rfl
+  | fuel + 1, t, seen => by
+    simp only [ditWalk]
+    rw [ditFields_congr hT (ditWalk_congr hT fuel)]
+
+theorem directivesInType_congr (hT : SameDefMap T T') (t : TypeDef) : directivesInType T t = directivesInType T' t := by
+  unfold directivesInType
+  rw [hT.len, ditWalk_congr hT]
+
 theorem dirSuccessors_congr (hT : SameDefMap T T') (d : DirectiveDef) : dirSuccessors T d = dirSuccessors T' d := by
   unfold dirSuccessors
-  simp only [hT.ty, hT.dir]
+  simp only [hT.ty, hT.dir, directivesInType_congr hT]
 
 theorem recRound_congr (hT : SameDefMap T T') (start : Name) (seen : List Name) (ds : List DirectiveDef) :
     recRound T start seen ds = recRound T' start seen ds := by
